@@ -158,9 +158,10 @@ func (a *Act) exec(instr ssa.Instruction, st *State, reach string, b *ssa.BasicB
 		for _, b := range in.Bindings {
 			bs = append(bs, a.val(b))
 		}
-		n := g.def(a.nm(in.Name()), "Iface", fmt.Sprintf("(mkIface %d (bOpaque %d))", g.tag(in.Type()), g.eng.closureID()))
+		cid := g.eng.closureID()
+		n := g.def(a.nm(in.Name()), "Iface", fmt.Sprintf("(mkIface %d (bOpaque %d))", g.tag(in.Type()), cid))
 		a.env[in] = n
-		g.closures[n] = &closureInfo{fn, bs}
+		g.closures[n] = &closureInfo{fn, bs, cid}
 	case *ssa.Extract:
 		tup := a.tuples[in.Tuple]
 		if tup == nil {
@@ -341,6 +342,20 @@ func mulConst(k int, t string) string {
 }
 
 func (a *Act) setEdge(from, to *ssa.BasicBlock, cond string, st *State) {
+	if u := a.unr; u != nil && u.in[from] {
+		if to == u.header {
+			u.backs = append(u.backs, unrEdge{from, cond, st.clone(), 0})
+			return
+		}
+		if !u.in[to] {
+			k := [2]int{from.Index, to.Index}
+			if _, ok := u.exits[k]; !ok {
+				u.exitOrder = append(u.exitOrder, k)
+			}
+			u.exits[k] = append(u.exits[k], unrEdge{from, cond, st.clone(), u.curIt})
+			return
+		}
+	}
 	if isBackEdge(from, to) {
 		a.backEdge(from, to, cond, st)
 		return
